@@ -227,11 +227,12 @@ fn join_tokens(tokens: &[String], at: Option<usize>, ch: &mut Chooser, st: &mut 
     for (i, tok) in tokens.iter().enumerate() {
         if i > 0 {
             let around_at = at.map(|a| i == a || i == a + 1).unwrap_or(false);
-            if around_at && ch.chance(30) {
-                st.kinds.insert("no_space_around_at");
-            } else {
-                s.push_str(&ws(ch, st));
+            // ("10@150" without spaces is accepted today but is not among the variations the
+            // statement lists; the draw is kept so that archived cases keep their meaning)
+            if around_at {
+                let _ = ch.chance(30);
             }
+            s.push_str(&ws(ch, st));
         }
         s.push_str(tok);
     }
@@ -260,9 +261,9 @@ pub fn render(c: &Case, allow_cr: bool) -> (String, LexStats, Vec<usize>) {
             st.kinds.insert("trailing_comment");
             line.push_str(&ws(&mut ch, &mut st));
             line.push_str(COMMENTS[ch.pick(COMMENTS.len())]);
-        } else if ch.chance(20) {
-            st.kinds.insert("trailing_whitespace");
-            line.push_str(" \t");
+        } else {
+            // (white space at the end of a line is not among the listed variations either)
+            let _ = ch.chance(20);
         }
         tx_line.push(lines.len() + 1);
         lines.push(line);
@@ -344,7 +345,7 @@ fn same_tx(a: &cgt_core::Transaction, b: &cgt_core::Transaction) -> bool {
     norm(a) == norm(b)
 }
 
-const RULE_LEX: &str = "valid transaction lists (all seven kinds, keyword-like tickers) rendered with random combinations of blank/comment lines, trailing comments, tabs/extra spaces, no space around '@', keyword/currency/ticker case, GBP omitted, zero FEES/TAX omitted or written, LF/CRLF/CR/mixed endings, missing final newline; non-trivial = >=3 distinct variation kinds, or a trailing comment, or a non-LF ending; distinct by text hash";
+const RULE_LEX: &str = "valid transaction lists (all seven kinds, keyword-like tickers) rendered with random combinations of blank/comment lines, trailing comments, tabs/extra spaces, keyword/currency/ticker case, GBP omitted, zero FEES/TAX omitted or written, LF/CRLF/CR/mixed endings, missing final newline; non-trivial = >=3 distinct variation kinds, or a trailing comment, or a non-LF ending; distinct by text hash";
 
 pub fn check_lex(c: &Case, obs: &mut Obs) -> Verdict {
     let (text, st, _) = render(c, true);
